@@ -22,6 +22,10 @@ Fixpoint dpath (fuel : nat) (nrows ncols : Z) (fd : list Z) (up : Z) : list Z * 
       end
   end.
 
+(* the cell numbers i, i+1, ..., i+n-1 *)
+Fixpoint zseq (i : Z) (n : nat) : list Z :=
+  match n with O => [] | S n' => i :: zseq (i + 1) n' end.
+
 (* update one element of a list (index as Z) *)
 Fixpoint upd {A} (l : list A) (i : Z) (f : A -> A) : list A :=
   match l with
